@@ -233,9 +233,19 @@ func (o *Once) Do(f func()) {
 type Pool struct {
 	New   func() any
 	items []any
+	epoch int64
+}
+
+// scope drops what an earlier execution left in the pool (package-level pools outlive an execution; a thread killed at
+// the end of an execution may have left an object in any state)
+func (p *Pool) scope() {
+	if p.epoch != execEpoch {
+		p.items, p.epoch = nil, execEpoch
+	}
 }
 
 func (p *Pool) Get() any {
+	p.scope()
 	if n := len(p.items); n > 0 {
 		x := p.items[n-1]
 		p.items = p.items[:n-1]
@@ -246,7 +256,7 @@ func (p *Pool) Get() any {
 	}
 	return nil
 }
-func (p *Pool) Put(x any) { p.items = append(p.items, x) }
+func (p *Pool) Put(x any) { p.scope(); p.items = append(p.items, x) }
 
 // Map wraps the real sync.Map; every operation is a scheduling point.
 type Map struct{ m rsync.Map }
